@@ -2,7 +2,7 @@
 
 PROPS = {
     "C04": dict(
-        verus=[("waker", {}), ("bgq_run", {})],
+        verus=[("waker", {}), ("bgq_run", {}), ("bgq", {}, ["Inner::flush_async"])],
         technique="Verus function contracts on the extracted real WakerTracker methods (step refinement) + inductive lemmas over histories",
         level_text="Deductive proof (Verus/z3) that the real handle_waiting_wakers / will_progress_on_drained_queue bodies refine an abstract step for all states and arguments, "
                    "that the stream is flushed before any held flush signal is released, and unbounded lemmas S1 (no early wake), L1 (bounded wake), S2 (no busy loop) over all step histories. "
@@ -57,7 +57,9 @@ PROPS = {
         unreached=["EntryDimensions config checks (EntryWriter::config: dyn Any downcast)", "missing-dimension sweep in finish() (map iteration)", "byte-for-byte equality of validated and unvalidated output (follows from the frames only for the functions under contract)"],
     ),
     "C01": dict(
-        verus=[("bgq", {}, ["push", "consume", "report_validation_error", "drain_until_deadline"])],
+        # bgq_run: the writer loop leaves only through shut_down (final drain): an entry appended before the last handle went away is
+        # still handed to the stream
+        verus=[("bgq", {}, ["push", "consume", "report_validation_error", "drain_until_deadline"]), ("bgq_run", {}, ["run"])],
         technique="Verus function contracts on the extracted real Inner::push / Receiver::consume / drain_until_deadline over a ghost log of the stream",
         level_text="Deductive proof (Verus/z3) of the writer side of the queue: every popped entry is handed to the stream exactly once, in pop order, for every stream result (Ok/Validation/Io), "
                    "nothing but the in-band error report is added, no popped entry is dropped on the deadline path, and push hands every entry to the queue. "
